@@ -1838,6 +1838,14 @@ func runBacktest(args []string) string {
 			rep.Logger = quiet
 			bt := backtest.NewBacktest(repo, rep)
 			bt.Names, bt.Strategies, bt.Workers, bt.LastDays, bt.Logger = runNames, ss, workers, lastDays, quiet
+			if seed%5 == 2 && len(names) > 0 {
+				// a first run in which one asset page cannot be written (a directory is in its way); once the obstacle is gone the
+				// same Backtest and report objects must produce the complete output
+				obstacle := filepath.Join(dir, names[0]+".html")
+				os.Mkdir(obstacle, 0o755)
+				bt.Run() // may fail: that is what the obstacle is for
+				os.Remove(obstacle)
+			}
 			if err := bt.Run(); err != nil {
 				return "ok runerr"
 			}
